@@ -69,6 +69,7 @@ def job_solver(job):
     if hooked:
         tad.VERIF_SINK = sink
     prev_raised = False
+    pruned_raised = set()
     for op in job["script"]:
         d = op["d"] - 1
         desc = pydescs[d]
@@ -77,6 +78,8 @@ def job_solver(job):
             continue
         if op.get("unless_prev_raised") and prev_raised:
             continue                    # the batch runner's flow: no unpruned run after a failed pruned one
+        if op.get("unless_pruned_raised") and op["d"] in pruned_raised:
+            continue
         prune = bool(op["prune"])
         mode = op.get("mode", "solve")
         emit({"e": "Call", "d": op["d"], "prune": prune, "mode": mode, "obj": op.get("obj", "new")})
@@ -113,6 +116,8 @@ def job_solver(job):
         except Exception as exc:  # observed, not judged
             emit(classify(exc))
             prev_raised = True
+            if prune:
+                pruned_raised.add(op["d"])
             continue
         prev_raised = False
         try:
